@@ -3,13 +3,13 @@
 ENGINES = [
     {'name': 'verus-contracts', 'path': 'tools/check.py + tools/extract.py + contracts/ + spec/ + units/',
      'serves_properties': [],
-     'kind_free_text': 'Verus 0.2026.09.13 on functions re-extracted verbatim from /repo/src on every run, with requires/ensures/invariant/decreases injected from contracts/*.vc; rewrite rules R1-R14 are the only textual changes (DESIGN.md 3.1, 8.1, 8.10, 8.13)'},
+     'kind_free_text': 'Verus 0.2026.09.13 on functions re-extracted verbatim from /repo/src on every run, with requires/ensures/invariant/decreases injected from contracts/*.vc; rewrite rules R1-R16 are the only textual changes (DESIGN.md 3.1, 8.1, 8.10, 8.13; R15 - the ghost node heap that stands for the Rc<RefCell<SolutionNode>> graph - in 8.23)'},
     {'name': 'kani-harnesses', 'path': 'kani/ + tools/run_kani.py',
      'serves_properties': [],
      'kind_free_text': 'Kani 0.68 / CBMC 6.11 harnesses on the real crate (path dependency) for the static-mut globals and float/integer arithmetic kernels'},
     {'name': 'replay', 'path': 'replay/',
      'serves_properties': [],
-     'kind_free_text': 'executable oracles linked against the real crate, written from the property statements: they attach a concrete failing input to an obligation the verifier has failed, re-run recorded cases, and run in both tiers as a supplementary bounded exploration (labelled bounded in the evidence, never counted as discharged; one seed in the quick tier, twelve in the thorough tier)'},
+     'kind_free_text': 'executable oracles linked against the real crate, written from the property statements: they attach a concrete failing input to an obligation the verifier has failed, re-run recorded cases, and run in both tiers as a supplementary bounded exploration (labelled bounded in the evidence, never counted as discharged; one seed in the quick tier, twelve in the thorough tier); includes a reference interpreter (depth-first resolution with cut) and a generator of random stratified programs for the solver properties; a run whose process dies is re-run one case per process (8.28)'},
 ]
 
 NOTES = ('Exit codes of bin/check: 0 every obligation discharged (KNOWN-FINDING lines possible); 1 VIOLATION; '
